@@ -94,6 +94,37 @@ def run(v, O):
 TEXTS = [('Fe2O1.5', {'Fe': 2, 'O': 1.5}), ('(OH1.5)2', {'O': 2, 'H': 3}), ('OH1.25', {'O': 1, 'H': 1.25}), ('[n]1.5', {'[n]': 1.5}), ('H0.5', {'H': 0.5}), ('O * 1.5 + H', {'O': 1.5, 'H': 1}),
          ('O{16}1.5 + H', {'O{16}': 1.5, 'H': 1}), ('C12H22O11', {'C': 12, 'H': 22, 'O': 11}), ('H10O1', {'H': 10, 'O': 1}), ('(NH4)Cl', {'N': 1, 'H': 4, 'Cl': 1}), ('(OH) Na', {'O': 1, 'H': 1, 'Na': 1}),
          ('([p][e])[n]', {'[p]': 1, '[e]': 1, '[n]': 1}), ('Ca((OH)Na)2', {'Ca': 1, 'O': 2, 'H': 2, 'Na': 2}), ('CH3 + COOH', {'C': 2, 'H': 4, 'O': 2}), ('H2 * 1.5', {'H': 3})]
+HISTORY_SRC = '''
+def run(v, O):
+    # an earlier substance that was grown in place (add) must not influence formulas evaluated afterwards
+    out = []
+    def counts(r):
+        return {k: float(c.proportion) for k, c in r.components.items()}
+    for first, want1, mod, later in v.cases:
+        s = Substance(first, natural=v.natural)
+        out.append((f'{first}: species and counts', O.same(counts(s), {k: float(n) for k, n in want1.items()})))
+        s.add(mod, v.n)
+        w = dict(want1); w[mod] = w.get(mod, 0) + v.n
+        out.append((f'{first} after add({mod}, n): count of {mod}', O.eq(s.components[mod].proportion, w[mod])))
+        for text, want in later:
+            r = Substance(text, natural=v.natural)
+            out.append((f'{text} after {first}.add({mod}, n): species and counts', O.same(counts(r), {k: float(n) for k, n in want.items()})))
+            d = r.data_composite(quantity=False)['sum']
+            out.append((f'{text} after {first}.add({mod}, n): total mass', O.eq(d.mass, sum(n * species_data(k, v.natural)[0] for k, n in want.items()), 1e-9)))
+            out.append((f'{text} after {first}.add({mod}, n): total electrons', O.eq(d.e, sum(n * species_data(k, v.natural)[3] for k, n in want.items()), 1e-9)))
+        r = Substance(first, natural=v.natural) + Substance(later[0][0], natural=v.natural)
+        w2 = dict(want1)
+        for k, n in later[0][1].items():
+            w2[k] = w2.get(k, 0) + n
+        out.append((f'{first} + {later[0][0]} afterwards: species and counts', O.same(counts(r), {k: float(n) for k, n in w2.items()})))
+    return out
+'''
+HISTORIES = [('O', {'O': 1}, 'O', [('H2O', {'H': 2, 'O': 1}), ('O', {'O': 1}), ('(O)', {'O': 1}), ('CO2', {'C': 1, 'O': 2})]),
+             ('(H)', {'H': 1}, 'H', [('H2O', {'H': 2, 'O': 1}), ('H', {'H': 1}), ('NH3', {'N': 1, 'H': 3})]),
+             ('O{16}', {'O{16}': 1}, 'O{16}', [('O{16}2', {'O{16}': 2}), ('H2O{16}', {'H': 2, 'O{16}': 1})]),
+             ('NaCl', {'Na': 1, 'Cl': 1}, 'Na', [('Na', {'Na': 1}), ('NaOH', {'Na': 1, 'O': 1, 'H': 1})]),
+             ('[e]', {'[e]': 1}, '[e]', [('[p][e]', {'[p]': 1, '[e]': 1}), ('[e]2', {'[e]': 2})]),
+             ('Fe{+3}', {'Fe{+3}': 1}, 'Fe{+3}', [('Fe{+3}2', {'Fe{+3}': 2}), ('Fe{+3}', {'Fe{+3}': 1})])]
 DICT_SRC = '''
 def run(v, O):
     s = Substance({v.s1: v.n1, v.s2: v.n2, v.s3: v.n3}, natural=v.natural)
@@ -237,6 +268,7 @@ def scenarios(tier, seed):
                           consts={'tree': [('sp', 'D{+}', 'n1'), ('grp', [('sp', 'O{-2}', None), ('sp', 'T{+}', 'n2')], None), ('sp', 'T', None)], 'style': j, 'natural': nat}, preamble=PRE,
                           what='formula with charged D and T', samples=1))
     for j, nat in enumerate((True, False)):
+        S.append(Scenario(f'history/{j}', HISTORY_SRC, {}, consts={'cases': HISTORIES, 'natural': nat, 'n': 2 + j}, preamble=PRE, what='formulas evaluated after an earlier substance was grown in place with add()', samples=1))
         S.append(Scenario(f'texts/{j}', TEXT_SRC, {}, consts={'cases': TEXTS, 'natural': nat}, preamble=PRE, what='formulas with decimal and multi-digit counts, bare groups and blanks (concrete)', samples=1))
     S.append(Scenario('canary/count', SUB_SRC.replace('O.eq(s.components[k].proportion, cnt)', 'O.eq(s.components[k].proportion, cnt + 1)'), {'n1': 'count', 'n2': 'count'},
                       consts={'tree': [('sp', 'Ca', None), ('grp', [('sp', 'O', None), ('sp', 'H', 'n1')], 'n2')], 'style': 0, 'natural': True}, preamble=PRE, canary=True))
